@@ -65,17 +65,19 @@ pub fn check_encoding(rep: &mut Report, enc: &[u8], o: &Opts, rng: &mut Rng) {
         rep.eval();
         mon::steps_reset((64 * input.len() as u64) + 4096);
         let sc = mon::AllocScope::begin();
+        let st = mon::StackScope::begin(crate::c02::STACK_BUDGET);
         let r = mon::guarded(|| {
             let mut d = Decoder::new(&input);
             let r = d.skip();
             (r.map_err(|e| (e.is_message(), e.to_string())), d.position())
         });
+        rep.max("skip/max stack depth below the call (bytes)", st.end() as f64);
         let al = sc.end();
         let steps = mon::steps_read();
         mon::steps_reset(0);
         match r {
             Err(p) => {
-                let sig = if p.is_step_limit() { "skip|step-limit" } else { "skip|panic" };
+                let sig = if p.is_step_limit() { "skip|step-limit" } else if p.is_stack_limit() { "skip|stack-depth" } else { "skip|panic" };
                 fail(rep, sig, format!("skip panicked: {} at {}", p.message, p.location), &input);
             }
             Ok((Ok(()), pos)) => {
